@@ -59,7 +59,7 @@ def _create_h1(data, meta) -> Histogram1D:
     min_ = float(min_)
     max_ = float(max_)
     binning = fixed_width_binning(
-        bin_width=(max_ - min_) / bin_count, range=(min_, max_)
+        bin_width=(max_ - min_) / bin_count, range=(min_, max_), align=False
     )
     stats = Statistics(sum=data[1:-1, 3].sum(), sum2=data[1:-1, 4].sum())
 
@@ -84,7 +84,7 @@ def _create_h2(data, meta) -> Histogram2D:
         min_ = float(min_)
         max_ = float(max_)
         binning = fixed_width_binning(
-            bin_width=(max_ - min_) / bin_count, range=(min_, max_)
+            bin_width=(max_ - min_) / bin_count, range=(min_, max_), align=False
         )
         binnings.append(binning)
 
